@@ -4,9 +4,10 @@ C15 — Connection teardown wakes every caller and stops every loop, without pan
 Safety clauses are invariants of the transition system for EVERY reachable state (every placement of the terminating
 event relative to outstanding Submits, an unsolicited PDU in flight and the unbind handshake).  "Promptly" is
 formalised as: the step that releases the goroutine is ENABLED in that state and needs no further event from the
-peer, the application or a timer.  PARTIAL: wall-clock promptness, real timers (ReadTimeout, the one-second unbind
-deadline, the keep-alive ticker) and the EnquireLink goroutine itself are outside the model; EnquireLink is tied by
-its regenerated statements (it leaves its loop on c.ctx.Done()) and exercised by the scenario run.
+peer, the application or a timer.  PARTIAL: wall-clock promptness and real timers (ReadTimeout, the one-second unbind
+deadline, the keep-alive ticker) are outside the model.  The EnquireLink goroutine is in the model (labels ka…); it is
+tied by its regenerated statements and exercised on the real code by the `connka` operations (not compared with the
+model line by line).
 -/
 import Smpp.Proofs.ConnInv
 import Smpp.Properties.ConnSource
@@ -105,6 +106,25 @@ theorem C15_close_steps_enabled (s : State) (i : Nat) (r : Result) :
     ((s.callers i).pc = .cancelling r → (step s (.closeCancel i)).isSome = true) := by
   constructor <;> intro h <;> simp [step, h]
 
+/-- **the keep-alive loop returns**: whenever it waits in its `select` after a failed keep-alive (ticker stopped, Close done) the
+connection context is already done, so its exit is enabled without any tick — for every reachable state -/
+theorem C15_keepalive_returns_after_failure (tbl) (hd : Distinct tbl) (hf : Fresh tbl) (s : State) (h : Reach tbl s)
+    (hk : s.ka = .select) (ht : s.tickerStopped = true) : ∃ s', step s .kaExit = some s' ∧ s'.ka = .returned := by
+  have hc := (invKa tbl hd hf s h).stoppedDone hk ht
+  exact ⟨{ s with ka := .returned }, by simp [step, hk, hc], rfl⟩
+
+/-- and in every other wait it returns as soon as the connection context is done -/
+theorem C15_keepalive_returns_on_done (s : State) (hk : s.ka = .select) (hc : s.connDone = true) :
+    ∃ s', step s .kaExit = some s' ∧ s'.ka = .returned :=
+  ⟨{ s with ka := .returned }, by simp [step, hk, hc], rfl⟩
+
+/-- the loop never waits on a stopped ticker with the connection still up (the defect repaired by f1f5953) -/
+theorem C15_keepalive_never_stuck (tbl) (hd : Distinct tbl) (hf : Fresh tbl) (s : State) (h : Reach tbl s)
+    (hk : s.ka = .select) : s.tickerStopped = false ∨ s.connDone = true := by
+  cases ht : s.tickerStopped with
+  | false => exact Or.inl rfl
+  | true => exact Or.inr ((invKa tbl hd hf s h).stoppedDone hk ht)
+
 /-! ## non-vacuity: the window the property names — an unsolicited PDU right after unbind_resp, nobody receiving -/
 def tblc : Nat → Caller := fun _ => { kind := .close, seq := 9, after := none }
 
@@ -113,5 +133,13 @@ example : ((run (init tblc) [.setDrain false, .start 0, .check 0, .write 0, .wri
     .takeResp 0, .finish 0, .closeTransport 0, .closeCancel 0,           -- Close completes
     .wOfferCancel, .wExit]).map fun s => (s.panicked, s.connDone, s.queueClosed, s.watch, (s.callers 0).pc))
     = some (false, true, true, .returned, .done (.resp ⟨9, .ans 0⟩)) := by decide +kernel
+
+/-- a keep-alive that goes unanswered: own deadline, Close (unbind unanswered too), cancel, the loop returns -/
+def tblka : Nat → Caller := fun i => if i = 0 then { kind := .submit, seq := 1, after := none } else { kind := .close, seq := 2, after := none }
+
+example : ((run (init tblka) [.kaStart, .kaSend 0, .start 0, .check 0, .write 0, .writeRet 0, .deadline 0, .seeOwnDone 0, .finish 0,
+    .kaSubmitDone, .kaClose 1, .start 1, .check 1, .write 1, .writeRet 1, .deadline 1, .seeOwnDone 1, .finish 1,
+    .closeTransport 1, .closeCancel 1, .kaCloseDone, .kaExit]).map fun s => (s.ka, s.connDone, s.tickerStopped))
+    = some (.returned, true, true) := by decide +kernel
 
 end Smpp.Properties.C15
